@@ -543,7 +543,7 @@ def fault_sites(link, items):
 # fault plans for reader-level runs (C01, C04)
 # ---------------------------------------------------------------------------
 
-SOCK_FAULTS = [["t"], ["t"], ["e", "ConnectionResetError"], ["e", "OSError"], ["e", "InterruptedError"], ["e", "BlockingIOError"], ["e", "BrokenPipeError"]]
+SOCK_FAULTS = [["t"], ["t"], ["e", "ConnectionResetError"], ["e", "OSError"], ["e", "InterruptedError"], ["e", "BlockingIOError"], ["e", "BrokenPipeError"], ["e", "OSError/noerrno"], ["e", "ConnectionResetError/noargs"], ["e", "TimeoutError/errno"], ["e", "OSError/bigerrno"]]
 SERIAL_FAULTS = [["t"]]
 
 
